@@ -463,6 +463,7 @@ namespace smt
                     {
                         while (!prop_q.empty())
                             prop_q.pop();
+                        th->backtrack_to_conflict();
 
                         if (root_level())
                         {
@@ -483,6 +484,7 @@ namespace smt
         for (const auto &th : theories)
             if (!th->check())
             {
+                th->backtrack_to_conflict();
                 if (root_level())
                 {
                     th->cnfl.clear();
